@@ -71,6 +71,21 @@ def _apb_from_fock(mol, nocc, nvirt, Cocc, Cvirt, ea_ei, m=0):
     return np.array(cols).T
 
 
+def _rpa_pair_checks(amp, m, n, Am, Bm, w, tol):
+    """RPA eigenvectors (X, Y): A X + B Y = w X, B X + A Y = -w Y, X.X - Y.Y = 1 (state by state and between states)"""
+    X = amp[0][m].detach().numpy()[:n].reshape(n, -1)
+    Y = amp[1][m].detach().numpy()[:n].reshape(n, -1)
+    bad, kinds = [], set()
+    r1 = np.linalg.norm(Am @ X.T + Bm @ Y.T - X.T * w[None, :], axis=0).max()
+    r2 = np.linalg.norm(Bm @ X.T + Am @ Y.T + Y.T * w[None, :], axis=0).max()
+    if max(r1, r2) > max(200 * tol, 5e-6):
+        bad.append(f"RPA residual {max(r1, r2):.2e} above the tolerance {tol}"); kinds.add("residual")
+    N = X @ X.T - Y @ Y.T
+    if np.abs(N - np.eye(n)).max() > max(1e-5, 1000 * tol):
+        bad.append(f"RPA amplitudes not (X.X - Y.Y)-orthonormal ({np.abs(N - np.eye(n)).max():.2e})"); kinds.add("orthonormal")
+    return bad, kinds
+
+
 def probe_eigenpairs(inp: Dict[str, Any]) -> Dict[str, Any]:
     import torch
 
@@ -81,6 +96,12 @@ def probe_eigenpairs(inp: Dict[str, Any]) -> Dict[str, Any]:
     coords = None
     if inp.get("symmetric"):
         coords = [np.array(inp["symmetric"])]
+    if inp.get("explicit_coords"):
+        coords = [np.array(c) for c in inp["explicit_coords"]]
+    if inp.get("distort"):
+        # homogeneous batch of different conformers: molecule i distorted by distort[i] (different amounts -> the iterative solver finishes them in different iterations)
+        rngd = np.random.default_rng(inp.get("seed", 0))
+        coords = [esh.geom(nm)[1] + rngd.normal(size=esh.geom(nm)[1].shape) * float(dd) for nm, dd in zip(names, inp["distort"])]
     r = esh.run_named(names, sp, coords=coords)
     mol = r["_mol"]
     bad: List[str] = []
@@ -114,6 +135,10 @@ def probe_eigenpairs(inp: Dict[str, Any]) -> Dict[str, Any]:
             res = np.linalg.norm(Am @ X.T - X.T * E[m][:n][None, :], axis=0).max()
             if res > max(50 * tol, 1e-6):
                 bad.append(f"mol{m}: residual {res:.2e} above the tolerance {tol}"); kinds.add("residual")
+        if method == "rpa" and amp is not None and amp.dim() == 4:
+            bad_r, kinds_r = _rpa_pair_checks(amp, m, n, Am, Bm, E[m][:n], tol)
+            bad += [f"mol{m}: " + b for b in bad_r]
+            kinds |= kinds_r
         if inp.get("check_apb", True) and m == 0:
             apb = _apb_from_fock(mol, nocc, nvirt, Cocc, Cvirt, ea_ei, m)
             dd = float(np.abs(apb - (Am + Bm)).max())
@@ -164,7 +189,133 @@ def probe_guess_independence(inp: Dict[str, Any]) -> Dict[str, Any]:
     return {"ok": not bad, "observed": bad, "expected": "independent of starting guess", "predicate": "", "fields": {"kinds": ["guess"] if bad else [], "xmethod": inp.get("xmethod", "cis")}}
 
 
-PROBES = {"eigenpairs": probe_eigenpairs, "guess_independence": probe_guess_independence}
+def _solver_iterations(names, coords, n_states, xmethod, method, tol):
+    """Davidson iteration count per molecule as printed by the real routine (CIS: one tensor line, RPA: one line per molecule)"""
+    import re
+
+    import torch
+    from seqm.ElectronicStructure import Electronic_Structure
+    from seqm.Molecule import Molecule
+    from seqm.seqm_functions.constants import Constants
+
+    sp = esh.settings(method=method, eps=1e-11, converger=[1], excited={"n_states": n_states, "method": xmethod, "tolerance": tol})
+    s_, x_, _, _ = esh.batch(names, coords=coords)
+    buf = io.StringIO()
+    with contextlib.redirect_stdout(buf):
+        mol = Molecule(Constants(), sp, torch.as_tensor(x_), torch.as_tensor(s_))
+        mol.verbose = True
+        Electronic_Structure(sp)(mol)
+    t = buf.getvalue()
+    m = re.search(r"Number of davidson iterations: tensor\(\[([0-9, ]+)\]\)", t)
+    if m:
+        return [int(v) for v in m.group(1).split(",")]
+    return [int(v) for v in re.findall(r"Number of davidson iterations: (\d+)", t)][-len(names):]
+
+
+def probe_staggered_batch(inp: Dict[str, Any]) -> Dict[str, Any]:
+    """coverage-directed: from a pool of conformers pick a batch in which the iterative solver finishes the molecules in DIFFERENT iterations
+    (an early-indexed one before a later-indexed one and the other way round), then demand the dense-reference eigenpairs for every member"""
+    nm, xm, method = inp["name"], inp.get("xmethod", "rpa"), inp.get("method", "AM1")
+    rng = np.random.default_rng(inp["seed"])
+    x0 = esh.geom(nm)[1]
+    pool = [x0] + [x0 + rng.normal(size=x0.shape) * d for d in (0.02, 0.06, 0.12, 0.2, 0.3, 0.15, 0.25)]
+    tried = []
+    found = None
+    # search the solver settings for one under which the conformers need different numbers of iterations
+    for n, tol in [(inp["n_states"], inp.get("tolerance", 1e-7)), (inp["n_states"] + 1, 1e-6), (max(1, inp["n_states"] - 1), 1e-9), (inp["n_states"] + 2, 1e-8), (1, 1e-6), (inp["n_states"], 1e-5)]:
+        its = []
+        for xx in pool:
+            try:
+                its.append(_solver_iterations([nm], [xx], n, xm, method, tol)[0])
+            except Exception:
+                its.append(None)
+        tried.append((n, tol, its))
+        ok_idx = [i for i, v in enumerate(its) if v is not None]
+        order = sorted(ok_idx, key=lambda i: its[i])
+        if len(order) >= 3 and its[order[0]] != its[order[-1]]:
+            found = (n, tol)
+            break
+    if found is None:
+        return {"ok": True, "observed": [f"no solver setting with different iteration counts found: {tried}"], "expected": "", "predicate": "", "fields": {"kinds": [], "xmethod": xm}, "nontrivial": False}
+    n, tol = found
+    inp = dict(inp, n_states=n, tolerance=tol)
+    lo, hi, mid = order[0], order[-1], order[len(order) // 2]
+    pick = [lo, hi, mid, lo] if inp.get("layout", 0) == 0 else [hi, lo, hi, mid]
+    sub = dict(inp, names=[nm] * len(pick), distort=None, check_apb=False)
+    # reuse the eigenpair predicate with explicit coordinates
+    sub["explicit_coords"] = [pool[i].tolist() for i in pick]
+    try:
+        r = probe_eigenpairs(sub)
+    except Exception as e:
+        # every member is solvable alone (its[] above): a batch-only failure is a dependence on batch composition
+        return {"ok": False, "observed": [f"each conformer is solved alone (iterations {[its[i] for i in pick]}), but the batch raises {type(e).__name__}: {str(e)[:120]}"], "expected": "", "predicate": "",
+                "fields": {"kinds": ["batch_raises"], "xmethod": xm, "molecule": nm, "n_states": n, "method": method}}
+    r["observed"] = (r["observed"] or []) + [f"iterations alone {[its[i] for i in pick]}"]
+    r["nontrivial"] = True
+    return r
+
+
+def probe_second_evaluation(inp: Dict[str, Any]) -> Dict[str, Any]:
+    """the same Molecule object evaluated again after its coordinates moved (what MD, optimisation and scans do; no explicit guess passed):
+    energies must be those of a fresh object at the new geometry, amplitudes true eigenvectors in the object's own orbital basis"""
+    import copy
+
+    import torch
+    from seqm.ElectronicStructure import Electronic_Structure
+    from seqm.Molecule import Molecule
+    from seqm.seqm_functions.constants import Constants
+
+    names = inp["names"]
+    method = inp.get("xmethod", "cis")
+    n = inp["n_states"]
+    tol = 1e-8
+    rng = np.random.default_rng(inp["seed"])
+    sp = esh.settings(method=inp.get("method", "AM1"), eps=1e-11, converger=[1], excited={"n_states": n, "method": method, "tolerance": tol})
+    s_, x0, ch, mu = esh.batch(names)
+    bad, kinds = [], set()
+    with contextlib.redirect_stdout(io.StringIO()):
+        spc = copy.deepcopy(sp)
+        mol = Molecule(Constants(), spc, torch.as_tensor(x0.copy()), torch.as_tensor(s_))
+        es = Electronic_Structure(spc)
+        es(mol)
+    x = x0.copy()
+    for step in range(inp.get("steps", 3)):
+        x = x + (s_ > 0)[..., None] * rng.normal(size=x.shape) * inp.get("disp", 0.04)
+        with contextlib.redirect_stdout(io.StringIO()):
+            with torch.no_grad():
+                mol.coordinates.copy_(torch.as_tensor(x))
+            try:
+                es(mol)
+            except Exception as e:
+                return {"ok": False, "observed": [f"second evaluation on the same object raises {type(e).__name__}: {str(e)[:120]}"], "expected": "", "predicate": "",
+                        "fields": {"kinds": ["second_eval_raises"], "xmethod": method}}
+        fresh = esh.run(s_, x, sp)
+        E, Ef = mol.cis_energies.detach().numpy(), fresh["cis_energies"]
+        d = float(np.abs(E[:, :n] - Ef[:, :n]).max())
+        if d > 1e-6:
+            bad.append(f"evaluation {step + 2} on the same object: excitation energies differ from a fresh object at the same geometry by {d:.2e} eV"); kinds.add("history_energy")
+        A, B, nocc, nvirt, Cocc, Cvirt, ea_ei = _dense(mol)
+        amp = mol.cis_amplitudes
+        for m in range(len(names)):
+            if method == "rpa":
+                b_, k_ = _rpa_pair_checks(amp, m, n, A[m], B[m], E[m][:n], tol)
+            else:
+                X = amp[m].detach().numpy()[:n].reshape(n, -1)
+                b_, k_ = [], set()
+                res = np.linalg.norm(A[m] @ X.T - X.T * E[m][:n][None, :], axis=0).max()
+                if res > 1e-6:
+                    b_.append(f"residual {res:.2e}"); k_.add("residual")
+                if np.abs(X @ X.T - np.eye(n)).max() > 1e-6:
+                    b_.append("amplitudes not orthonormal"); k_.add("orthonormal")
+            bad += [f"evaluation {step + 2}, mol{m}: " + t for t in b_]
+            kinds |= k_
+        if bad:
+            break
+    return {"ok": not bad, "observed": bad[:5], "expected": "same-object re-evaluation = fresh evaluation; amplitudes stay eigenvectors", "predicate": "",
+            "fields": {"kinds": sorted(kinds), "xmethod": method, "molecule": "+".join(names), "n_states": n}}
+
+
+PROBES = {"staggered_batch": probe_staggered_batch, "second_evaluation": probe_second_evaluation, "eigenpairs": probe_eigenpairs, "guess_independence": probe_guess_independence}
 
 NH3_SYM = [[0.0, 0, 0.1173], [0, 0.9377, -0.2737], [0.8121, -0.4689, -0.2737], [-0.8121, -0.4689, -0.2737]]
 
@@ -177,6 +328,18 @@ def gen_cases(ctx: Ctx):
     cases.append(("eigenpairs", {"names": ["ch2o"], "n_states": 4, "xmethod": "rpa"}))
     cases.append(("eigenpairs", {"names": ["h2o", "h2o"], "n_states": 3, "xmethod": "cis", "method": "PM3"}))
     cases.append(("eigenpairs", {"names": ["ch4"], "n_states": 4, "xmethod": "cis", "method": "AM1", "check_apb": False}))  # corpus: near-degenerate T2 set, 4th root skipped (known finding F20)
+    # homogeneous batches of different conformers (one nearly at equilibrium, others strongly distorted: they converge in different iterations), both orders
+    dist = [0.0, 0.12, 0.03, 0.2]
+    for i, (nm, k) in enumerate([("ch2o", 3), ("h2o", 4), ("nh3", 3), ("hcn", 4)][: (4 if ctx.thorough else 2)]):
+        d = dist[:k] if (i + ctx.seed) % 2 == 0 else dist[:k][::-1]
+        cases.append(("eigenpairs", {"names": [nm] * k, "n_states": 3, "xmethod": "rpa", "method": ["AM1", "PM3"][i % 2], "distort": d, "seed": int(rng.integers(0, 10**6)), "check_apb": False}))
+        cases.append(("eigenpairs", {"names": [nm] * k, "n_states": 3, "xmethod": "cis", "method": ["AM1", "PM3"][i % 2], "distort": d[::-1], "seed": int(rng.integers(0, 10**6)), "check_apb": False}))
+    for i, (nm, ns) in enumerate([("ch2o", 2), ("hcn", 3), ("h2o", 2), ("ch2o", 4), ("co", 3), ("hcn", 2)][: (6 if ctx.thorough else 3)]):
+        cases.append(("staggered_batch", {"name": nm, "n_states": ns, "xmethod": ["rpa", "cis"][(i + ctx.seed) % 2] if i else "rpa", "method": ["AM1", "PM3", "MNDO"][i % 3], "seed": int(rng.integers(0, 10**6)), "layout": (i + ctx.seed) % 2}))
+    # the same object re-evaluated along a sequence of nearby geometries
+    for i, nm in enumerate(["ch2o", "ch4", "h2o", "nh3"][: (4 if ctx.thorough else 2)]):
+        for xm in ("cis", "rpa"):
+            cases.append(("second_evaluation", {"names": [nm], "n_states": 3, "xmethod": xm, "seed": int(rng.integers(0, 10**6)), "steps": 3, "method": ["AM1", "PM3"][i % 2]}))
     pool = ["h2o", "nh3", "ch2o", "hcn", "hf", "h2s", "co", "ch4"]
     n = 14 if ctx.thorough else 3
     for i in range(n):
@@ -319,4 +482,4 @@ def run(ctx: Ctx):
         if isinstance(r, Exception) or r is None:
             ctx.obligation(f"probe {name} evaluated", False, repr(r)[-1500:], kind="harness")
             continue
-        ctx.probe_case(name, c, r["ok"], fields=r["fields"], observed=r["observed"], expected=r["expected"], predicate=r["predicate"], stratum=name + "/" + str(c.get("xmethod")))
+        ctx.probe_case(name, c, r["ok"], fields=r["fields"], observed=r["observed"], expected=r["expected"], predicate=r["predicate"], stratum=name + "/" + str(c.get("xmethod")), nontrivial=r.get("nontrivial", True))
